@@ -40,12 +40,17 @@ def check(run):
     c3, m3 = c01.build_cases(run, rng, 6 if quick else 60, 14 if quick else 20, ndocs=(14, 30), blocklimit=None,
                              paths=("unlimited", "limited"), scored_only=True, cmp="full", kinds=("ranked", "error"),
                              alt=True, limits=(1, 2, 3, 5), storage="ram",
-                             worldgen=lambda r, n: (c12.stepped_docs(r, n), c12.stepped_query), plangen=c12.stepped_plan)
+                             worldgen=lambda r, n: (c12.stepped_docs(r, n), lambda r2: _noscale(c12.stepped_query(r2))),
+                             plangen=c12.stepped_plan)
     cases += c3
     meta += m3
     rejects = qobs.judge(run, cases)
     c01.report(run, "C05", cases, meta, rejects, "c05")
     rank_regime(run, rng, 6 if quick else 60, 12 if quick else 16)
+    # the stepped lists under every weighting, with the coordination bonus (Or(scale=...) over low-weighted clauses:
+    # the coordinated score of a document with both terms exceeds the union's own score)
+    rank_regime(run, rng, 6 if quick else 40, 10, check="c05-rank-stepped", blocklimits=(1, 2, 3, 4),
+                docgen=c12.stepped_docs, qgen=c12.stepped_query, plangen=c12.stepped_plan)
     # positional queries (phrases with slop, span queries) over lists where the conjunction underneath holds
     # documents - and whole blocks - without a matching span: a limited search skips by quality *inside* the span
     # matcher
@@ -67,6 +72,16 @@ def check(run):
         run.machinery("vacuity: no limited search engaged block skipping or matcher replacement")
 
 
+def _noscale(aq):
+    """The exact regime has no coordination bonus (QuerySem gives an Or the sum of its matching clauses): the same
+    query without `scale`; the scaled form is judged in the rank regime."""
+    if isinstance(aq, dict):
+        return dict((k, _noscale(v)) for k, v in aq.items() if k != "scale")
+    if isinstance(aq, list):
+        return [_noscale(x) for x in aq]
+    return aq
+
+
 def rank_weightings():
     from whoosh import scoring
     from harness.props import c09
@@ -86,12 +101,19 @@ def rank_weightings():
 
 
 def _intern(lists):
-    """scores of several (doc, score) lists -> ranks (higher = better), equal within a relative 1e-9"""
+    """scores of several (doc, score) lists -> ranks (higher = better).  Values of *different* lists that agree
+    within a relative 1e-9 get one rank (a rewritten matcher tree adds the same numbers up in another order); two
+    different values of the first list - the exhaustive ranking - never do: the code orders that list by the exact
+    floats, and two scores one bit apart are not a tie whose document order could be judged."""
+    first = set(float(sc) for _, sc in lists[0]) if lists else set()
     vals = sorted(set(float(sc) for lst in lists for _, sc in lst))
-    ranks, last, r = {}, None, 0
+    ranks, last, r, hasfirst = {}, None, 0, False
     for v in vals:
-        if last is None or abs(v - last) > 1e-9 * max(1.0, abs(v), abs(last)):
+        near = last is not None and abs(v - last) <= 1e-9 * max(1.0, abs(v), abs(last))
+        if not near or (v in first and hasfirst):
             r += 1
+            hasfirst = False
+        hasfirst = hasfirst or v in first
         ranks[v] = r
         last = v
     return [[[int(d), ranks[float(sc)]] for d, sc in lst] for lst in lists]
